@@ -15,23 +15,27 @@ MANIFEST = {
             'excluded): randbelow_range (0 <= _randbelow < n, fast path and rejection loop; bits variant too), '
             'unit_vector_shape/onehot (length n, exactly one 1), shuffle_perm (= random_permutation: a Permutation of the input), '
             'derangement_no_fixed_point (Permutation and y[i] <> x[i] everywhere), sample_pop_subselection, choice_member, '
-            'randrange_lattice/within, getrandbits_range (= random as scaled integer), uniform_within (a <= N < b for a < b), '
-            'uniform_bounds_refuted (a = b). Uniformity by counting: randbelow_one_pass_bounded_partial (n <= 64, bound in the '
-            'statement: a k-bit one-pass tape is accepted iff it encodes v < n and returns v; one accepting tape per value) and '
-            'rejection_ignores_retained_bits (all n: the bits kept on restart are not inspected by the rejecting pass). Model tied to '
-            'the code on every run by exhaustive tape-tree enumeration through the real functions with the bit source substituted '
-            'from outside (n<=12 randbelow/unit vectors, n<=4 shuffles/derangements, populations<=4; secint, secfxp, secfld), exact '
-            'comparison of values and consumed bits, and exact weighted histogram counting (flat / proportional to weights).',
+            'choices_cum_member/choices_weights_member (weighted choices return members, nonnegative integer weights), '
+            'randrange_lattice/within, getrandbits_range (= random as scaled integer), uniform_within (a <= N <= b for a <= b incl. '
+            'a = b, N < b when a < b) and uniform_within_rev. Uniformity by counting: randbelow_one_pass_bounded_partial (n <= 64, '
+            'bound in the statement: a k-bit one-pass tape is accepted iff it encodes v < n and returns v; one accepting tape per '
+            'value) and rejection_ignores_retained_bits (all n: the bits kept on restart are not inspected by the rejecting pass). '
+            'Model tied to the code on every run by exhaustive tape-tree enumeration through the real functions with the bit source '
+            'substituted from outside (n<=12 randbelow/unit vectors, n<=4 shuffles/derangements, populations<=4; secint, secfxp, '
+            'secfld), exact comparison of values and consumed bits, and exact weighted histogram counting (flat / proportional to '
+            'weights).',
     'note': 'Trusted: Coq kernel + vm_compute; the hand-written model (value level: secure numbers are their integer values; '
-            'runtime.in_prod/scalar_mul/vector_add/prod/from_bits modelled as exact integer arithmetic; single party, no_async); '
-            'random_bits is a tape oracle, its own uniformity is C01/C15 not this check. MISSING as theorems (covered only by the '
-            'exact counting on implementation+model for small n): unbounded randbelow one-pass kernel and randbelow_uniform over r '
-            'restarts, unit-vector uniformity, shuffle_uniform, derangement_uniform, choices weights, sample_range distinctness, '
-            'lists-of-lists shuffle permutation (model corresponded, not proved). np_random_unit_vector not modelled (no NumPy here). '
-            'Weighted choices are not applicable to secure fields (no <). _randbelow(st,1) returns the public int 0, so '
-            'randrange/uniform over a one-point range return public numbers (value correct; noted, not counted as violation). '
-            'Known findings: F-C33-1 uniform(a,b) with round(|a-b|*2^f)=0 returns a or a+2^-f; F-C33-2 choices(secfxp, weights) '
-            'returns non-members.',
+            'runtime.in_prod/scalar_mul/vector_add/vector_sub/prod/from_bits modelled as exact integer arithmetic; single party, '
+            'no_async); random_bits is a tape oracle, its own uniformity is C01/C15 not this check. MISSING as theorems (covered only '
+            'by the exact counting on implementation+model for small n): unbounded randbelow one-pass kernel and randbelow_uniform '
+            'over r restarts, unit-vector uniformity, shuffle_uniform, derangement_uniform, choices weight proportions, sample_range '
+            'distinctness, lists-of-lists shuffle permutation (model corresponded, not proved). np_random_unit_vector not modelled '
+            '(no NumPy here). Weighted choices are not applicable to secure fields (field elements have no <; TypeError unrelated '
+            'to any defect). _randbelow(st,1) returns the public int 0, so randrange/uniform over a one-point range return public '
+            'numbers (value correct; noted, not counted as violation). The two defects this check found were repaired in /repo: '
+            'F-C33-1 (uniform with round(|a-b|*2^f)=0 returned a or a+2^-f) by commit 554365d (model follows: n = 0 returns a, no '
+            'bits drawn); F-C33-2 (choices with weights on secure fixed-point returned non-members because vector_sub took the '
+            'public 1 unscaled) by commit 4609d39; both cases are now ordinary enumerated cases compared with model and oracle.',
     'technique': 'Coq proof over bit-tape model + exhaustive tape-tree correspondence and exact outcome counting',
 }
 
@@ -370,33 +374,22 @@ def run(ctx):
     # ---- I. random / uniform (secfxp only; scaled by 2^f) -------------------------------------------------
     tree('random', 'secfxp', secfxp, {'f': F}, lambda st_: mr.random(st_), 'fun tp => random_fxp %s tp' % natlit(F), F,
          lambda r: None if 0 <= r < 2 ** F else 'not in [0,1)', outcomes=list(range(2 ** F)), scale=2 ** F)
-    for (a, b) in [(0.0, 0.5), (1.0, 1.75), (2.0, 1.25), (-0.5, 0.25), (0.75, 0.5), (-1.0, -1.375)]:
+    for (a, b) in [(0.0, 0.5), (1.0, 1.75), (2.0, 1.25), (-0.5, 0.25), (0.75, 0.5), (-1.0, -1.375), (1.0, 1.0), (0.0, 0.0), (-2.5, -2.5),
+                   (1.0, 1.0625), (1.0, 0.9375)]:
         A, B = int(a * 2 ** F), int(b * 2 ** F)
         n = abs(A - B)
-        k = (n - 1).bit_length()
+        k = (n - 1).bit_length() if n else 0
         L = (2 + LQ) * k if n & (n - 1) else k
-        outs = [A + i * (1 if B >= A else -1) for i in range(n)]
+        outs = [A + i * (1 if B >= A else -1) for i in range(n)] if n else [A]     # n = 0: the point a itself, no bits drawn
         tree('uniform', 'secfxp', secfxp, {'a': a, 'b': b}, lambda st_, a=a, b=b: mr.uniform(st_, a, b),
              'fun tp => uniform_fxp (fuel_for tp) %s %s tp' % (zlit(A), zlit(B)), L,
              lambda r, A=A, B=B: None if min(A, B) <= r <= max(A, B) else 'outside [a,b]', outcomes=outs, scale=2 ** F)
-    # degenerate interval (a == b, or |a-b| below half a unit): documented a <= N <= b
-    for (a, b) in [(1.0, 1.0), (0.0, 0.0), (-2.5, -2.5), (0.5, 0.5 + 2.0 ** -(F + 2))]:
-        for tp in ((0,), (1,)):
-            px = Proxy(mpc, tp)
-            mr.runtime = px
-            try:
-                r = float(mpc.run(mpc.output(mr.uniform(secfxp, a, b))))
-            finally:
-                mr.runtime = mpc
-            ctx.case({'fn': 'uniform-degenerate', 'a': a, 'b': b, 'tape': list(tp)}, kind='uniform/degenerate')
-            if not (min(a, b) <= r <= max(a, b)):
-                ctx.violation('uniform-degenerate-interval a=%r b=%r' % (a, b),
-                              {'function': 'uniform', 'a': a, 'b': b, 'tape': list(tp), 'got': r,
-                               'why': 'round(|a-b|*2^f) = 0 -> _randbelow(0) takes the power-of-two path with k=1'})
-        if a == b:
-            A = int(a * 2 ** F)
-            groups.append(('uniform', 'secfxp', {'a': a, 'b': b}, 'fun tp => uniform_fxp (fuel_for tp) %s %s tp' % (zlit(A), zlit(A)),
-                           [((0,), A), ((1,), A + 1)], [], False))
+    # interval below half a unit with non-grid endpoint: round(|a-b|*2^f) = 0 -> a (converted); oracle only
+    for (a, b) in [(0.5, 0.5 + 2.0 ** -(F + 2)), (0.5 + 2.0 ** -(F + 2), 0.5)]:
+        r = float(mpc.run(mpc.output(mr.uniform(secfxp, a, b))))
+        ctx.case({'fn': 'uniform-subunit', 'a': a, 'b': b}, kind='uniform/subunit')
+        if not (min(a, b) - 2.0 ** -F < r < max(a, b) + 2.0 ** -F):     # conversion of a non-grid endpoint rounds by < 1 unit
+            ctx.violation('uniform-shape a=%r b=%r subunit' % (a, b), {'function': 'uniform', 'a': a, 'b': b, 'got': r})
 
     # ---- suffix cases: unconsumed tape must be left alone (consumed-bit count with a longer tape) ----------
     suffix = []
@@ -526,10 +519,8 @@ def run(ctx):
         nr += 2
         ctx.case({'fn': 'uniform-live', 'a': a, 'b': b}, nontrivial=False, kind='live')
         ulp = 2.0 ** -F
-        degenerate = round(abs(a - b) * 2 ** F) == 0
         if not (min(a, b) - ulp <= v <= max(a, b) + ulp):      # conversion of a non-grid endpoint rounds by < 1 unit
-            ctx.violation(('uniform-degenerate-interval a=%r b=%r' if degenerate else 'uniform-shape a=%r b=%r live') % (a, b),
-                          {'a': a, 'b': b, 'got': v})
+            ctx.violation('uniform-shape a=%r b=%r live' % (a, b), {'a': a, 'b': b, 'got': v})
         if not 0 <= r < 1:
             ctx.violation('random-shape live', {'got': r})
     # error paths
